@@ -723,6 +723,119 @@ func c09R6(p *core.Program, r *core.Report, sc *scanClosure) {
 }
 
 // closureYields lists the yield arguments of the innermost iterator closure of f.
+// iterEnv: when an iterator is not a closure of its constructor but a method of a small value built
+// by it (`return Func(commentText(v).frag)`, `Func(goDirective{name: d, args: a}.frag)`), what the
+// method's receiver stands for in the constructor: the converted argument, or the literal's fields.
+type iterEnv struct {
+	recv *types.Var // receiver of the iterator method
+	expr ast.Expr   // the receiver value as written in the constructor: T(arg) or T{...}
+}
+
+// denotes: x (in the iterator) is the constructor's variable `want`, directly, through a conversion,
+// or through the receiver of a method-object iterator.
+func (env *iterEnv) denotes(info *types.Info, x ast.Expr, want *types.Var) bool {
+	unconv := func(e ast.Expr) ast.Expr {
+		for {
+			e = ast.Unparen(e)
+			c, ok := e.(*ast.CallExpr)
+			if !ok || len(c.Args) != 1 {
+				return e
+			}
+			if tv, ok := info.Types[c.Fun]; !ok || !tv.IsType() {
+				return e
+			}
+			e = c.Args[0]
+		}
+	}
+	if want == nil {
+		return false
+	}
+	x = unconv(x)
+	if core.VarOf(info, x) == want {
+		return true
+	}
+	if env == nil || env.recv == nil {
+		return false
+	}
+	if core.VarOf(info, x) == env.recv {
+		return core.VarOf(info, unconv(env.expr)) == want
+	}
+	if sel, ok := x.(*ast.SelectorExpr); ok && core.VarOf(info, sel.X) == env.recv {
+		if cl, ok := ast.Unparen(env.expr).(*ast.CompositeLit); ok {
+			for _, el := range cl.Elts {
+				if kv, ok := el.(*ast.KeyValueExpr); ok {
+					if id, ok := kv.Key.(*ast.Ident); ok && id.Name == sel.Sel.Name {
+						return core.VarOf(info, unconv(kv.Value)) == want
+					}
+				}
+			}
+		}
+	}
+	return false
+}
+
+// closureYieldsEnv: like closureYields, and when the constructor has no iterator closure, the
+// method-object form: the returned expression mentions a method value E.m; m (or the method value
+// it returns in turn) takes the yield function.
+func closureYieldsEnv(p *core.Program, f *core.Func) (*core.Func, []*ast.CallExpr, *iterEnv) {
+	if it, ys := closureYields(p, f); it != nil && len(ys) > 0 {
+		return it, ys, nil
+	}
+	info := f.Info()
+	var env *iterEnv
+	var it *core.Func
+	ast.Inspect(f.Body, func(n ast.Node) bool {
+		sel, ok := n.(*ast.SelectorExpr)
+		if !ok || it != nil {
+			return true
+		}
+		s := info.Selections[sel]
+		if s == nil || s.Kind() != types.MethodVal {
+			return true
+		}
+		m := p.FuncOfObj(s.Obj().(*types.Func))
+		if m == nil || m.Decl == nil || m.Decl.Recv == nil {
+			return true
+		}
+		cur := m
+		for depth := 0; depth < 3 && cur != nil; depth++ {
+			if yieldParam(cur) != nil {
+				it = cur
+				break
+			}
+			// `return recv.next` : a method value on the same receiver
+			ret := singleReturn(cur)
+			if ret == nil {
+				break
+			}
+			rs, ok := ast.Unparen(ret).(*ast.SelectorExpr)
+			if !ok {
+				break
+			}
+			rsel := cur.Info().Selections[rs]
+			if rsel == nil || rsel.Kind() != types.MethodVal || core.VarOf(cur.Info(), rs.X) != recvVar(cur) {
+				break
+			}
+			cur = p.FuncOfObj(rsel.Obj().(*types.Func))
+		}
+		if it != nil {
+			env = &iterEnv{recv: recvVar(it), expr: sel.X}
+		}
+		return true
+	})
+	if it == nil {
+		return nil, nil, nil
+	}
+	y := yieldParam(it)
+	var calls []*ast.CallExpr
+	for _, c := range core.Calls(it.Body, true) {
+		if core.VarOf(it.Info(), c.Fun) == y {
+			calls = append(calls, c)
+		}
+	}
+	return it, calls, env
+}
+
 func closureYields(p *core.Program, f *core.Func) (*core.Func, []*ast.CallExpr) {
 	var it *core.Func
 	var walk func(x *core.Func)
@@ -817,7 +930,7 @@ func c09R7(p *core.Program, r *core.Report) {
 	// Comment
 	if f := p.FuncByName("pkg/gengo/snippet", "Comment"); f == nil {
 		r.Anchor(rule, "pkg/gengo/snippet.Comment")
-	} else if it, ys := closureYields(p, f); it == nil || len(ys) == 0 {
+	} else if it, ys, env := closureYieldsEnv(p, f); it == nil || len(ys) == 0 {
 		r.Anchor(rule, "iterator closure of Comment")
 	} else {
 		info := it.Info()
@@ -838,7 +951,7 @@ func c09R7(p *core.Program, r *core.Report) {
 				if k, isC := core.ConstString(info, b.X); isC && strings.HasPrefix(k, "//") {
 					good = rangeOver(it, b.Y, func(x ast.Expr) bool {
 						c := core.AsCall(info, x, "strings.Split")
-						return c != nil && core.VarOf(info, c.Args[0]) == param && constStrIs(info, c.Args[1], "\n")
+						return c != nil && env.denotes(info, c.Args[0], param) && constStrIs(info, c.Args[1], "\n")
 					})
 				}
 			}
@@ -854,7 +967,7 @@ func c09R7(p *core.Program, r *core.Report) {
 	// GoDirective
 	if f := p.FuncByName("pkg/gengo/snippet", "GoDirective"); f == nil {
 		r.Anchor(rule, "pkg/gengo/snippet.GoDirective")
-	} else if it, ys := closureYields(p, f); it == nil || len(ys) == 0 {
+	} else if it, ys, env := closureYieldsEnv(p, f); it == nil || len(ys) == 0 {
 		r.Anchor(rule, "iterator closure of GoDirective")
 	} else {
 		info := it.Info()
@@ -876,10 +989,10 @@ func c09R7(p *core.Program, r *core.Report) {
 		for _, y := range ys[1:] {
 			a := y.Args[0]
 			switch {
-			case core.VarOf(info, a) == dir && dir != nil:
+			case env.denotes(info, a, dir):
 				dirOK = true
 			case constStrIs(info, a, " "):
-			case rangeOver(it, a, func(x ast.Expr) bool { return core.VarOf(info, x) == args }):
+			case rangeOver(it, a, func(x ast.Expr) bool { return env.denotes(info, x, args) }):
 				bc := &boundsCtx{f: it, g: g, info: info}
 				guarded := false
 				for _, fct := range g.FactsAt(g.PointOf(y)) {
